@@ -94,9 +94,14 @@ def run(chk: Check) -> None:
         for path in cfg.paths(limit=2000, edge_ok=lambda a, b, l: l != 'exc' or exc_feasible(a)):
             n_paths += 1
             evs: List[str] = []
+            base_exc = False   # a CancelledError / BaseException handler was entered and re-raises: what travels on is not an Exception
             for node, label in path:
+                if node.kind == 'except' and getattr(node.ast, 'type', None) is not None and any(k in norm(node.ast.type) for k in ('asyncio.CancelledError', 'BaseException')):
+                    base_exc = True
                 if label in ('exc', 'uncaught', 'handler') and node.kind != 'capture':
                     continue  # the node did not complete: its write did not happen
+                if node.kind == 'capture' and base_exc:
+                    continue  # capture_exceptions lets a BaseException through: nothing is set on the future here
                 evs.extend(events_at(node, out, f.name))
             last = path[-1][0]
             if last is cfg.raise_exit:
@@ -138,6 +143,10 @@ def run(chk: Check) -> None:
                    'not a cancellation)', node=c, kind='cancelled-tested-first')
     chk.floor('FUT-exactly-once:paths', total_paths, 12)
 
+    from .common import cancellation_delivered
+    cancellation_delivered(chk, 'FUT-exactly-once', 'futures.create_task.run_task', 'future', 'the coroutine scheduled by create_task')
+    cancellation_delivered(chk, 'FUT-exactly-once', 'futures.unwrap_kiwi_future.unwrap', 'unwrapping', 'unwrapping a kiwipy future')
+    cancellation_delivered(chk, 'FUT-exactly-once', 'communications.plum_to_kiwi_future.on_done', 'kiwi_future', 'mirroring a loop future')
     # nested unwrapping: a future resolving to a future is followed, not delivered
     un = prog.func('futures.unwrap_kiwi_future.unwrap')
     # site-centric: the re-registration happens exactly where the result is known to be a future, the delivery exactly where it is known not to be
